@@ -22,7 +22,7 @@ import random
 import datetime
 import time
 
-from urllib.parse import urlsplit, quote, quote_plus, unquote, unquote_plus
+from urllib.parse import urlsplit, urljoin, quote, quote_plus, unquote, unquote_plus
 
 try:
     import simplejson as json
@@ -957,6 +957,15 @@ class Patron(object):
         if self.redirects:
             redirect = self.redirects[-1]
             location = redirect['headers'].get('location')
+            # location may be relative reference so resolve against redirected url
+            host = self.requester.hostname
+            if u':' in host:  # ipv6
+                host = u'[' + host + u']'
+            location = urljoin(u"{0}://{1}:{2}{3}".format(self.requester.scheme,
+                                                         host,
+                                                         self.requester.port,
+                                                         quote(self.requester.path)),
+                               location)
             path, sep, query = location.partition('?')
             path = unquote(path)
             if sep:
